@@ -28,9 +28,9 @@ META = {
         'a copy, and the input is returned unchanged when no pixel is bad; C17.SKY - skymask tests exactly BADSKYCHI and '
         'REDMONSTER on ormask, dilates each row with width 2*ngrow+1 using the edge-truncating smooth, multiplies invvar by the '
         'complement; C17.SKY-CAST - each & between the caller\'s mask and a uint64 flag value has an explicit conversion. '
-        'NOT decided: djs_median reflection, maxrej/group logic, numerical interpolation values.'),
+        'C17.MEDIAN - djs_median does not pad with the non-repeating reflect mode of numpy.pad. NOT decided: the explicit reflection slices of djs_median, maxrej/group logic, numerical interpolation values.'),
     'floors': {'C17.MI-SITES': 11, 'C17.MI1-STORE': 6, 'C17.MI1-ORDER': 1, 'C17.GROW': 3, 'C17.REJ-MASKS': 9, 'C17.AESTH': 4,
-               'C17.SKY': 5, 'C17.SKY-CAST': 2},
+               'C17.SKY': 5, 'C17.SKY-CAST': 2, 'C17.MEDIAN': 1},
 }
 
 IMAGE = 'pydl/pydlutils/image.py'
@@ -153,7 +153,8 @@ def check_reject(ctx, repo):
     ctx.need(grow_if, 'djs_reject: grow block not found')
     g = grow_if[0]
     loops = [n for n in walk_local(g) if isinstance(n, ast.For)]
-    ctx.need(loops, 'djs_reject: grow loop not found')
+    if not loops:
+        return check_grow_vectorised(ctx, f, fa, g)
     lp = loops[0]
     rng = [try_fold(a) if not isinstance(a, ast.BinOp) else src(a) for a in lp.iter.args] if isinstance(lp.iter, ast.Call) and call_name(lp.iter) == 'range' else None
     ctx.check('C17.GROW', rng == [1, 'grow + 1'], f, lp, 'grow loop visits k = 1 .. grow',
@@ -206,6 +207,56 @@ def check_reject(ctx, repo):
               'the new mask is ANDed with outmask under sticky', msg='the new mask is not ANDed with outmask under sticky', construct='newmask&outmask')
     check_qdone(ctx, f, fa, 'C17.REJ-MASKS')
     check_thresholds(ctx, f, fa, 'C17.REJ-MASKS')
+
+
+def check_grow_vectorised(ctx, f, fa, g):
+    """Loop-free grow: the neighbour indices are offsets in [-grow, grow] of the reject indices, kept when they fall inside
+    [0, n-1].  The kept range is extracted from the filter predicate with interval arithmetic."""
+    from ..pred import rejected, NotRange
+    from ..intset import IntSet
+    stores = [st for st in walk_local(g) if isinstance(st, ast.Assign) and isinstance(st.targets[0], ast.Subscript) and src(st.targets[0].value) == 'newmask']
+    filt = [st for st in walk_local(g) if isinstance(st, ast.Assign) and isinstance(st.value, ast.Subscript) and isinstance(st.targets[0], ast.Name)
+            and src(st.value.value) == src(st.targets[0]) and not isinstance(st.value.slice, (ast.Slice, ast.Constant, ast.Name))]
+    offs = [c for c in walk_local(g) if isinstance(c, ast.Call) and call_name(c) == 'arange' and 'grow' in src(c)]
+    if not stores or not filt or not offs:
+        raise AnalysisError('C17: djs_reject grow block is neither the clamped loop nor a recognised vectorised form')
+    rng = [src(a).replace(' ', '') for a in offs[0].args]
+    ctx.check('C17.GROW', rng[:2] == ['-grow', 'grow+1'], f, offs[0], 'neighbour offsets cover -grow .. +grow (%s)' % src(offs[0]),
+              msg='neighbour offsets are %s, not -grow .. +grow' % src(offs[0]), construct='grow offsets ' + src(offs[0]))
+    cond = filt[0].value.slice
+    var = src(filt[0].targets[0])
+
+    def res(n):
+        return None
+    try:
+        # treat `data.shape[0]` / len(data) as the symbolic size N = 10**9 for the interval computation
+        class Sub(ast.NodeTransformer):
+            def visit_Subscript(self, n):
+                if src(n) in ('data.shape[0]',):
+                    return ast.Constant(value=10 ** 9)
+                return self.generic_visit(n)
+
+            def visit_Call(self, n):
+                if src(n) in ('len(data)',):
+                    return ast.Constant(value=10 ** 9)
+                return self.generic_visit(n)
+
+            def visit_Attribute(self, n):
+                if src(n) == 'data.size':
+                    return ast.Constant(value=10 ** 9)
+                return self.generic_visit(n)
+        from ..astutil import clone
+        r = rejected(Sub().visit(clone(cond)))
+    except NotRange as e:
+        raise AnalysisError('C17: grow filter `%s` is not a recognised range test: %s' % (src(cond), e))
+    kept = r.get(var, (IntSet.empty(), IntSet.empty()))[0]
+    want = IntSet.range(0, 10 ** 9 - 1)
+    ctx.check('C17.GROW', kept == want, f, filt[0], 'neighbour indices are kept exactly when they lie in [0, n-1] (`%s`)' % src(cond),
+              msg='the grow filter `%s` keeps indices %s (n = 10^9 stands for the array length): %s is never rejected as a neighbour'
+                  % (src(cond), kept, 'pixel 0' if not (IntSet.range(0, 0) & kept) else 'the last pixel or an out-of-range index'),
+              construct='grow filter ' + src(cond))
+    ctx.check('C17.GROW', any(try_fold(st.value) == 0 and var in src(st.targets[0].slice) for st in stores), f, stores[0], 'the kept neighbours are rejected: newmask[%s] = 0' % var,
+              msg='the filtered neighbour indices are not the ones rejected', construct='grow store')
 
 
 def check_qdone(ctx, f, fa, rule):
@@ -378,8 +429,28 @@ def check_skymask(ctx, repo):
               'result is invvar * (1 - badmask)', msg='skymask returns %s' % (src(rets[0].value) if rets else ''), construct='skymask return')
 
 
+def check_median(ctx, repo):
+    f = repo.func(MATH, 'djs_median')
+    ctx.cover(f)
+    pads = [c for c in walk_local(f.node) if isinstance(c, ast.Call) and call_name(c) == 'pad']
+    bad = [c for c in pads if any(k.arg == 'mode' and try_fold(k.value) not in ('symmetric',) for k in c.keywords) or
+           (len(c.args) > 2 and try_fold(c.args[2]) != 'symmetric') or (not any(k.arg == 'mode' for k in c.keywords) and len(c.args) < 3)]
+    ctx.check('C17.MEDIAN', not bad, f, bad[0] if bad else f.node,
+              'djs_median pads by symmetric reflection (edge sample repeated): %s' % ('explicit reversed edge slices' if not pads else [src(c)[:40] for c in pads]),
+              msg='djs_median pads with `%s`: numpy mode %r does not repeat the edge sample, so the running median differs from a median filter with '
+                  'symmetric reflection within width/2 of the border' % (src(bad[0])[:60] if bad else '', 'reflect'), construct='median padding ' + (src(bad[0])[:60] if bad else ''))
+    # explicit form: each border block is the adjacent block of the array reversed along the padded axis
+    n = 0
+    for st in walk_local(f.node):
+        if isinstance(st, ast.Assign) and isinstance(st.targets[0], ast.Subscript) and src(st.targets[0].value) == 'bigarr' and isinstance(st.value, ast.Subscript) \
+                and '::-1' in src(st.value.slice):
+            n += 1
+    ctx.notes['median_reflect_blocks'] = n
+
+
 def run(ctx):
     repo = ctx.repo
+    check_median(ctx, repo)
     n = check_mi_sites(ctx, repo)
     ctx.need(n >= 11, 'djs_maskinterp: fewer than 11 dispatch sites')
     check_mi1(ctx, repo)
